@@ -8,9 +8,11 @@ package main
 
 import (
 	"fmt"
+	"io"
 	"net"
 	"os"
 	"runtime/debug"
+	"time"
 
 	"git.sr.ht/~adrian-blx/psa-dhcp/lib/rsocks"
 )
@@ -48,6 +50,36 @@ func scenario(name string, open func() (closer, error), reps int) {
 	fmt.Printf("%s %d %d %s\n", name, before, nfd(), res)
 }
 
+// closeWakes: a goroutine blocked in Read on a receive socket must come back once the socket is closed — that is how every
+// receive loop of the repository ends (ARP probe time-out, server and client shutdown).
+func closeWakes(name string, open func() (io.ReadCloser, error)) {
+	before := nfd()
+	s, err := open()
+	if err != nil {
+		fmt.Printf("%s %d %d err\n", name, before, nfd())
+		return
+	}
+	done := make(chan struct{})
+	go func() {
+		buf := make([]byte, 4096)
+		for {
+			if _, err := s.Read(buf); err != nil {
+				close(done)
+				return
+			}
+		}
+	}()
+	time.Sleep(150 * time.Millisecond)
+	s.Close()
+	res := "ok"
+	select {
+	case <-done:
+	case <-time.After(2 * time.Second):
+		res = "blocked"
+	}
+	fmt.Printf("%s %d %d %s\n", name, before, nfd(), res)
+}
+
 func main() {
 	debug.SetGCPercent(-1)
 	lo, err := net.InterfaceByName("lo")
@@ -55,6 +87,8 @@ func main() {
 		fmt.Println("skip no-lo 0 0 skip")
 		return
 	}
+	closeWakes("closewakes-arprecv/lo", func() (io.ReadCloser, error) { s, e := rsocks.GetARPRecvSock(lo); if e != nil { return nil, e }; return s, nil })
+	closeWakes("closewakes-iprecv/lo", func() (io.ReadCloser, error) { s, e := rsocks.GetIPRecvSock(lo); if e != nil { return nil, e }; return s, nil })
 	ghost := &net.Interface{Index: 0x7ffffff0, Name: "ghost0"}
 	const reps = 8
 	for _, ifc := range []*net.Interface{lo, ghost} {
